@@ -640,10 +640,63 @@ type branch struct {
 	arms    []arm
 }
 
+// switchArms: a `switch { case cond: … }` or `switch req.Method { case http.MethodX, http.MethodY: … }` is the same decision
+// list as an if / else-if chain (cases are tried in order, `default` last, no fallthrough): it is turned into the same arms
+func switchArms(sw *ast.SwitchStmt) []arm {
+	if sw.Init != nil || (sw.Tag != nil && src(sw.Tag) != "req.Method") {
+		return []arm{{kind: "unrecognised", target: pos(sw)}}
+	}
+	arms := []arm{}
+	var dflt *ast.CaseClause
+	for _, st := range sw.Body.List {
+		cc, ok := st.(*ast.CaseClause)
+		if !ok {
+			return []arm{{kind: "unrecognised", target: pos(st)}}
+		}
+		for _, b := range cc.Body {
+			if br, ok := b.(*ast.BranchStmt); ok && br.Tok == token.FALLTHROUGH {
+				return []arm{{kind: "unrecognised", target: pos(br)}}
+			}
+		}
+		if cc.List == nil {
+			dflt = cc
+			continue
+		}
+		// the alternatives of one clause are a disjunction
+		var cond ast.Expr
+		for _, e := range cc.List {
+			c := e
+			if sw.Tag != nil {
+				c = &ast.BinaryExpr{X: sw.Tag, Op: token.EQL, Y: e}
+			}
+			if cond == nil {
+				cond = c
+			} else {
+				cond = &ast.BinaryExpr{X: cond, Op: token.LOR, Y: c}
+			}
+		}
+		a := arm{}
+		classify(cond, &a.g)
+		a.kind, a.target = targetOf(&ast.BlockStmt{Lbrace: cc.Pos(), List: cc.Body})
+		if len(a.g.unknown) > 0 || a.g.ok {
+			a.kind, a.target = "unrecognised", pos(cc)+" "+src(cond)
+		}
+		arms = append(arms, a)
+	}
+	if dflt != nil {
+		a := arm{}
+		a.kind, a.target = targetOf(&ast.BlockStmt{Lbrace: dflt.Pos(), List: dflt.Body})
+		arms = append(arms, a)
+	}
+	return arms
+}
+
 func armChain(st ast.Stmt) []arm {
 	arms := []arm{}
 	for cur := st; cur != nil; {
 		switch s := cur.(type) {
+		case *ast.SwitchStmt:
+			return append(arms, switchArms(s)...)
 		case *ast.IfStmt:
 			a := arm{}
 			classify(s.Cond, &a.g)
@@ -749,6 +802,8 @@ func genRoutes() string {
 				}
 				if len(eff) == 1 {
 					if inner, ok := eff[0].(*ast.IfStmt); ok {
+						br.arms = armChain(inner)
+					} else if inner, ok := eff[0].(*ast.SwitchStmt); ok {
 						br.arms = armChain(inner)
 					} else {
 						k, t := targetOf(s.Body)
